@@ -209,6 +209,15 @@ def show_events(evs):
     return "; ".join(show_event(e) for e in evs)
 
 
+def split_not(d):
+    """'Not Not X' -> ('X', False); 'Not X' -> ('X', True): (core description, negated?)"""
+    neg = False
+    while d.startswith("Not "):
+        d = d[4:]
+        neg = not neg
+    return d, neg
+
+
 class Limit(Exception):
     pass
 
@@ -371,7 +380,9 @@ class Enum:
                     branches = [p.val] if (p.val is True or p.val is False) else [True, False]
                     heads = [(b, p) for b in branches]
                 else:
-                    heads = [(True, p.then(P([("branch", desc(c), True, Ref(e))]))), (False, p.then(P([("branch", desc(c), False, Ref(e))])))]
+                    # leading negations are folded into the truth value: the event never starts with "Not "
+                    core, neg = split_not(desc(c))
+                    heads = [(True, p.then(P([("branch", core, True != neg, Ref(e))]))), (False, p.then(P([("branch", core, False != neg, Ref(e))])))]
                 for truth, h in heads:
                     body = e["t"] if truth else e.get("e")
                     for q in self.paths(body):
